@@ -86,6 +86,8 @@ where
         // enough: a commit that removes us and adds someone else re-uses our leaf index, so a
         // leaf is still found there although the group is no longer ours.
         if !mls_group.is_active() || mls_group.own_leaf().is_none() {
+            self.epoch_snapshots
+                .enforce_retention(self.storage(), &group_id);
             return self.handle_local_member_eviction(&group_id, event);
         }
 
@@ -112,6 +114,8 @@ where
             }
             return Err(e);
         }
+        self.epoch_snapshots
+            .enforce_retention(self.storage(), &group_id);
 
         // Save a processed message so we don't reprocess
         let processed_message = super::create_processed_message_record(
